@@ -266,7 +266,8 @@ def load_hdf5(path, meta_only=False):
                     parms.loads(val)
                     val = parms
                 elif key == "preprocessing":
-                    val = val.split(",")
+                    # (an empty list is stored as an empty string)
+                    val = val.split(",") if val else []
                 elif key in ["preprocessing_options", "method_kws"]:
                     val = json.loads(val)
                 elif key == "range_x":
@@ -352,7 +353,9 @@ def save_hdf5(h5path, indent, user_rate, user_name, user_comment, h5mode="a"):
                 elif key in ["preprocessing_options", "method_kws"]:
                     val = json.dumps(val)
                 elif key == "range_x":
-                    val = str(val)
+                    # (plain floats: the text of numpy scalars cannot
+                    # be parsed by `load_hdf5`)
+                    val = str(tuple(float(v) for v in val))
                 out.attrs["fit {}".format(key)] = val
 
             out.create_dataset("fit range",
